@@ -225,9 +225,9 @@ struct GenStats {
 };
 
 // History kinds
-enum Kind { K_NONE, K_ONE, K_BEFORE, K_BETWEEN, K_AFTER, K_FAT, K_ODD, K_LEGACY_A, K_LEGACY_B, K_DSTFIRST, K_NKINDS };
+enum Kind { K_NONE, K_ONE, K_BEFORE, K_BETWEEN, K_AFTER, K_FAT, K_ODD, K_LEGACY_A, K_LEGACY_B, K_DSTFIRST, K_LEGACY_NEG, K_NKINDS };
 inline const char* kind_name(int k) {
-  static const char* n[] = {"none", "one", "seam-before", "seam-between", "seam-after", "fat-bigbang", "oddities", "legacy-dst-type0-first", "legacy-dst-type0-later", "first-period-is-dst"};
+  static const char* n[] = {"none", "one", "seam-before", "seam-between", "seam-after", "fat-bigbang", "oddities", "legacy-dst-type0-first", "legacy-dst-type0-later", "first-period-is-dst", "legacy-negative-dst-type0"};
   return n[k];
 }
 
@@ -411,17 +411,19 @@ inline bool build_zone(const Footer& f, int kind, int version, GenZone* out, Gen
       }
       break;
     }
+    case K_LEGACY_NEG:
     case K_LEGACY_A:
     case K_LEGACY_B: {
       // old-zic style: type 0 is a DST type and is referenced by a transition;
       // there is no LMT type, the first standard type governs early times.
       T.clear();
       TType D0{S + 3600 < 86400 ? S + 3600 : S - 3600, true, "ODT"};
+      if (kind == K_LEGACY_NEG) D0.off = (S - 3600 > -86400) ? S - 3600 : S + 3600;  // negative DST: the DST type 0 lies WEST of standard time
       TType S1{S, false, "OST"};
       type_index(D0);  // type 0
       type_index(S1);  // type 1
       long long t = T_LMT;
-      if (kind == K_LEGACY_A) { push(t, D0); t += YEAR / 2; push(t, S1); }
+      if (kind != K_LEGACY_B) { push(t, D0); t += YEAR / 2; push(t, S1); }
       else { push(t, S1); t += YEAR / 2; push(t, D0); t += YEAR / 2; push(t, S1); }
       t += YEAR; push(t, D0); t += YEAR / 2; push(t, S1);
       if (has_rule) {
